@@ -1088,6 +1088,14 @@ func (h *handler1) snFlushBufferLocked() error {
 // You must acquire h.snSendMutex before calling this function!
 func (h *handler1) snSendLocked(pkt snPkts.Packet) error {
 	if h.state.Get() == util.StateAsleep {
+		// A retransmission of a packet which is still waiting in the buffer
+		// must not be queued again, the client would get the packet several
+		// times after it wakes up.
+		for _, queued := range h.pktBuffer {
+			if queued == pkt {
+				return nil
+			}
+		}
 		h.log.Debug("Queued %v", pkt)
 		h.pktBuffer = append(h.pktBuffer, pkt)
 		// TODO: Potentional serialization errors will be delayed!
